@@ -144,7 +144,7 @@ func (e *Explorer) RunOnce(prefix []int, trace bool, body func() (verdict, outco
 		e.unwound = make(chan struct{})
 	}
 	s := &Sched{exp: e, finished: make(chan struct{}), branching: true,
-		closed: map[uintptr]any{}, objIDs: map[any]int{}, Values: map[string]any{}}
+		objIDs: map[any]int{}, Values: map[string]any{}}
 	main := &Thread{ID: 0, Name: "main", wake: make(chan int, 1), kind: OpHarness, selDone: -1}
 	s.threads = []*Thread{main}
 	s.cur = main
